@@ -430,6 +430,7 @@ func TestRealStartHistories(t *testing.T) {
 			}
 		}
 		in := s.Instantiate()
+		in.ForceHook = true
 		// sometimes a substituting post-processor takes part (early references that differ from the raw component)
 		if rapid.IntRange(0, 2).Draw(t, "withwrap") == 0 {
 			wrap := &graph.WrapPP{Plan: map[string]graph.WrapPlan{}}
